@@ -648,7 +648,33 @@ def race_for_c06(case: dict) -> dict:
         else:
             spec = specs.synthetic_variant(rng)
         s = rng.randrange(1 << 30)
-        run, info = run_workers(spec, 3, RandomPolicy(s, 0.3) if j % 2 else PCT(s, 3, 400))
+        if j % 4 == 3 or case.get("ops"):
+            # operator actions from their own thread while the workers run: cancel, pause / unpause,
+            # restart of a finished stage - every writer of the workflow row races the handlers
+            r2 = random.Random(s)
+            action = r2.choice(["cancel", "cancel", "pause", "restart"])
+
+            def injector(w, sched, stop, _r=r2, _a=action, _spec=spec):
+                idle_points(sched, _r.randrange(0, 300), stop)
+                try:
+                    if _a == "cancel":
+                        w.cancel()
+                    elif _a == "pause":
+                        w.store.pause(w.wf_id, "verif")
+                        idle_points(sched, _r.randrange(0, 80), stop)
+                        w.orch.unpause(w.store.retrieve(w.wf_id))
+                    else:
+                        wf = w.store.retrieve(w.wf_id)
+                        done = [st for st in wf.stages if st.status.is_complete and st.parent_stage_id is None]
+                        if done:
+                            w.orch.restart(wf, _r.choice(done).id)
+                except Exception as e:  # an operator call that loses a lock race fails visibly; not our concern here
+                    w.errors.append(("X", _a, f"{type(e).__name__}: {e}"))
+
+            run, info = race_run(spec, r2, injector=injector, nworkers=3)
+            obs["operator_action_runs"] += 1
+        else:
+            run, info = run_workers(spec, 3, RandomPolicy(s, 0.3) if j % 2 else PCT(s, 3, 400))
         obs["evaluations"] += 1
         if run is None:
             obs["scheduler_watchdog"] += 1
